@@ -2,6 +2,7 @@ package simple
 
 import (
 	"context"
+	"strings"
 
 	"github.com/projecteru2/core/types"
 
@@ -42,7 +43,9 @@ func (b *BasicAuth) doAuth(ctx context.Context) error {
 	if !ok {
 		return types.ErrInvaildGRPCRequestMeta
 	}
-	passwords, ok := meta[b.username]
+	// gRPC metadata keys are case-insensitive: the transport lower-cases them on the wire
+	// (so does metadata.MD), hence the configured username has to be looked up lower-cased.
+	passwords, ok := meta[strings.ToLower(b.username)]
 	if !ok {
 		return types.ErrInvaildGRPCUsername
 	}
